@@ -240,6 +240,61 @@ def gen_sigchld(rng):
     return " ".join(toks)
 
 
+def gen_kill(rng):
+    """uv_kill / uv_process_kill: existence probe, fatal signals, an invalid signal number, a reaped
+    pid; pid > 0 and pid = -pgid of a detached child that has a grandchild in its group"""
+    sig = rng.choice([15, 9, 10, 15, 9, 1, 2, 12])
+    bad = rng.choice([65, 99, 200, 1000])
+    r = rng.random()
+    if r < 0.45:
+        # a detached child with a grandchild in its group, addressed as a group
+        toks = ["L39 g0 r", "S0:%s:Fx%d:0:Rd" % (rng.choice(["-", "i,i,i", "h0,h1,h2"]), rng.randrange(256))]
+        pre = ["N0:0 J0", "N0:%d" % bad, "P0:0", "K0:0"]
+        rng.shuffle(pre)
+        toks += pre[:rng.randint(1, 4)]
+        toks += ["N0:%d" % sig, "E J0", "N0:0", rng.choice(["P0:0", "K0:%d" % sig, ""]), "W"]
+    elif r < 0.85:
+        n = rng.randint(1, 4)
+        toks = ["L39 g0"] + ["S%d:-:x%d:0:-" % (h, rng.randrange(256)) for h in range(n)]
+        for h in range(n):
+            form = rng.choice("KP")
+            pre = ["%s%d:0" % (form, h), "%s%d:%d" % (rng.choice("KP"), h, bad), "N%d:0" % h]
+            rng.shuffle(pre)
+            toks += pre[:rng.randint(0, 3)]
+            if rng.random() < 0.75:
+                toks.append("%s%d:%d" % (form, h, rng.choice([15, 9, 10, 1, 2, 12, 13, 14])))
+                toks.append(rng.choice(["E", "A%d R" % h, "E"]))
+                toks.append("%s%d:0" % (rng.choice("KP"), h))       # reaped: ESRCH
+        toks.append("G0 E W")
+    else:
+        # detached without a grandchild, not detached with one
+        d = rng.random() < 0.5
+        toks = ["L39 g0 r", "S0:-:%sx7:0:R%s" % ("" if d else "F", "d" if d else ""),
+                "N0:0", "N0:%d" % sig, "E", "J0" if not d else "", "N0:0", "G0 E W"]
+    return " ".join(t for t in toks if t)
+
+
+def gen_forkfam(rng):
+    """fork() + uv_loop_fork() in the copy before any signal watcher or child exists; one copy spawns
+    while the other polls its loop: the spawner must still hear of every exit"""
+    toks = ["L39", "g0", "O%s" % rng.choice("cp")]
+    n = rng.randint(1, 4)
+    gated = []
+    for h in range(n):
+        g = rng.random() < 0.5
+        act = "x%d" % rng.randrange(256) if rng.random() < 0.7 else "s%d" % rng.choice(TERM_SIGS)
+        toks.append("S%d:%s:%s:%s:-" % (h, rng.choice(["-", "i,i,i", "h0,h1,h2"]), act, "0" if g else "-"))
+        if g:
+            gated.append(h)
+        if rng.random() < 0.3:
+            toks.append("E")
+    toks.append("E")
+    if gated:
+        toks.append("G0 E")
+    toks.append("W")
+    return " ".join(toks)
+
+
 def gen_disable(rng):
     """non-contiguous inheritable descriptors below 16 (and above), uv_disable_stdio_inheritance(),
     then a spawn whose helper reports its table"""
@@ -335,6 +390,7 @@ class Impl:
         self.debug = debug          # assert-enabled flavour of libuv
         self.abort = None           # (h, assertion text): abort() inside uv_spawn
         self.disable = []           # ("Hb"|"Ha", table) around uv_disable_stdio_inheritance()
+        self.killlog, self.pending_call, self.grand, self.joins, self.forked = [], None, {}, [], None
         self.user_cbs = 0
         self.stuck_why = ""
         self.pcreds = {}
@@ -398,9 +454,11 @@ class Impl:
                     h, tb = t[1:].split(":", 1)
                     parts = tb.split("|")
                     self.spawns[int(h)]["c"] = None if parts[0] == "-" and len(parts) == 1 else parse_table(parts[0])
-                    if len(parts) == 4:
+                    if len(parts) >= 4:
                         self.spawns[int(h)]["ccreds"] = (tuple(int(x) for x in parts[1].split(".")),
                                                          tuple(int(x) for x in parts[2].split(".")), int(parts[3]))
+                    if len(parts) >= 6:
+                        self.spawns[int(h)]["session"] = parts[4]
                 elif c == "t":
                     h, rest = t[1:].split(":", 1)
                     st = {}
@@ -432,9 +490,22 @@ class Impl:
                     cur = None
                 elif c == "C":
                     self.order.append(("C", int(t[1:])))
+                elif c == "e":
+                    tgt, sg, res = t[1:].split(":")
+                    self.pending_call = (tgt, int(sg), int(res))
                 elif c == "k":
                     h, r = t[1:].split(":")
-                    self.kills[int(h)] = int(r)
+                    # (kill(2) call seen by the wrapper or None, return value, children reaped so far,
+                    #  grandchildren gone so far)
+                    self.killlog.append((self.pending_call, int(h), int(r),
+                                         set(x[0] for x in self.exits), dict(self.grand)))
+                    self.pending_call = None
+                elif c == "j":
+                    h, v = t[1:].split(":")
+                    self.grand[int(h)] = v
+                    self.joins.append((int(h), v, len(self.killlog)))
+                elif c == "O":
+                    self.forked = t[1:]
                 elif c == "z":
                     v = t[2:]
                     self.z = [] if v == "-" else [int(x) for x in v.split(",")]
@@ -676,9 +747,11 @@ def monitor_impl(im):
             closed_at[int(t[1:])] = idx
         elif t[0] == "Z":
             stolen.add(int(t[1:]))
-        elif t[0] == "K":
+        elif t[0] in "KPN" and ":" in t:
             h, sg = t[1:].split(":")
-            killed.setdefault(int(h), int(sg))
+            fatal = int(sg) in TERM_SIGS + CORE_SIGS
+            if fatal and (t[0] != "N" or "d" in im.script.get(int(h), {}).get("flags", "")):
+                killed.setdefault(int(h), int(sg))
     nx = {}
     for h, es, ts, chk, act in im.exits:
         nx[h] = nx.get(h, 0) + 1
@@ -702,7 +775,10 @@ def monitor_impl(im):
         return ("child %d%s never reported within the drain: it has exited, %s, the handle is still active" %
                 (h, " spawned after a failed spawn" if after else "",
                  "SIGCHLD is blocked in the loop thread" if im.stuck_why == "blocked" else
-                 "the disposition of SIGCHLD is back to default although process handles are active")), False
+                 ("the SIGCHLD notification was lost (a forked copy of the process polls its own copy of the loop)"
+                  if im.stuck_why == "lost" and im.forked else
+                  ("the loop was run twice after the exit" if im.stuck_why == "lost" else
+                   "the disposition of SIGCHLD is back to default although process handles are active")))), False
     for k in range(0, len(im.disable) - 1, 2):
         before, after = im.disable[k][1], im.disable[k + 1][1]
         run = 16
@@ -830,9 +906,43 @@ def monitor_impl(im):
                     return "child %d: handle still active in exit_cb" % h, False
             if h in (im.z or []) and not (h in closed_at and h not in reaped_by_uv):
                 return "child %d was left unreaped" % h, False
-    for h, r in im.kills.items():
-        if r != 0:
-            return "uv_process_kill(child %d) returned %d" % (h, r), False
+    ksteps = [t for t in steps if t[0] in "KPN" and ":" in t]
+    if len(ksteps) != len(im.killlog):
+        return "%d uv_kill/uv_process_kill calls made, %d returned" % (len(ksteps), len(im.killlog)), False
+    for t, (call, h, ret, reaped, grand) in zip(ksteps, im.killlog):
+        sg = int(t.split(":")[1])
+        detached = "d" in im.script[h]["flags"]
+        what = {"K": "uv_process_kill(child %d, %d)", "P": "uv_kill(pid of child %d, %d)",
+                "N": "uv_kill(-pid of child %d = its process group, %d)"}[t[0]] % (h, sg)
+        if t[0] == "N":
+            has_gc = im.script[h]["act"][0] == "F"
+            gc_gone = grand.get(h, "alive") not in ("alive",) if has_gc else True
+            exists = detached and (h not in reaped or not gc_gone)
+        else:
+            exists = h not in reaped
+        want = -22 if not (0 <= sg <= 64) else (0 if exists else -3)
+        if ret != want:
+            return ("%s returned %d, expected %d (%s)%s" %
+                    (what, ret, want, "invalid signal number" if want == -22 else
+                     ("the target exists" if exists else "no such process"),
+                     "; kill(2) was never called: nothing was signalled" if call is None else "")), False
+    for h, v, _ in im.joins:
+        sig = killed.get(h)
+        if v == "none":
+            return "the helper of child %d did not report a grandchild" % h, False
+        if sig is not None and "d" in im.script[h]["flags"]:
+            # the whole group of the detached child was signalled: the grandchild too
+            prior = [t for t in ksteps if t[0] == "N" and t[1:].split(":")[0] == str(h)]
+            if any(int(t.split(":")[1]) == sig for t in prior):
+                if v in ("alive", "gone") or (int(v) & 0x7f) != sig:
+                    return ("grandchild in the process group of detached child %d: %s after uv_kill(-pgid, %d)"
+                            % (h, v if not v.isdigit() else "wait status %s" % v, sig)), False
+    for h, sp in sorted(im.spawns.items()):
+        if "session" in sp and "abort" not in sp:
+            want = "1.1" if "d" in im.script[h]["flags"] else "0.0"
+            if sp["session"] != want:
+                return ("child %d: session leader/group leader = %s, UV_PROCESS_DETACHED %s" %
+                        (h, sp["session"], "set" if want == "1.1" else "not set")), False
     for n, sz in im.sizes.items():
         return "stray write of %d bytes into file %d" % (sz, n), True
     return None, False
@@ -846,10 +956,10 @@ def main():
     try:
         lib = vf.build_libuv(chk.scratch, "ndebug")
         hsp = vf.cc_harness(chk.scratch, "c12_spawn", ["c12_spawn.c"], lib=lib,
-                            wraps=["waitpid", "fork", "socketpair", "pipe2"])
+                            wraps=["waitpid", "fork", "socketpair", "pipe2", "kill"])
         libd = vf.build_libuv(chk.scratch, "debug")           # assertions on, as the default cmake build
         hspd = vf.cc_harness(chk.scratch, "c12_spawn_dbg", ["c12_spawn.c"], lib=libd, flavour="debug",
-                             wraps=["waitpid", "fork", "socketpair", "pipe2"])
+                             wraps=["waitpid", "fork", "socketpair", "pipe2", "kill"])
         os.chmod(chk.scratch.dir, 0o755)      # children exec the harness after dropping to uid 1000 / 65534
         hst = vf.cc_harness(chk.scratch, "c12_status", ["c12_status.c"], lib=None, libs=())
         model = vf.model_bin("C12")
@@ -880,7 +990,9 @@ def main():
     exits = [gen_exits(rng, 30 if thorough else 16) for _ in range(nex)]
     special = [] if chk.replay else (gen_creds(rng, 1500 if thorough else 120) + gen_closed_stdio(rng) +
                                      [gen_sigchld(rng) for _ in range(1500 if thorough else 150)] +
-                                     [gen_disable(rng) for _ in range(1500 if thorough else 150)])
+                                     [gen_disable(rng) for _ in range(1500 if thorough else 150)] +
+                                     [gen_kill(rng) for _ in range(1500 if thorough else 150)] +
+                                     [gen_forkfam(rng) for _ in range(800 if thorough else 80)])
     cases = corpus + shuffles + exits + special
     wdir = os.path.join(chk.scratch.dir, "c12files")
     os.makedirs(wdir, exist_ok=True)
@@ -927,6 +1039,30 @@ def main():
         hmodel, _, _ = vf.run_lines([model, "disable"], hin)
         vf.diff_cases(chk, "core.c uv_disable_stdio_inheritance = Model/Process.v disable_stdio_inheritance",
                       hcases, himpl, hmodel)
+    # uv_kill / uv_process_kill: the kill(2) call the wrapper saw and the value returned
+    kcases, kimpl, kin = [], [], []
+    for c, im in zip(cases, impls):
+        if im.bad:
+            continue
+        ksteps = [t for t in c.split() if t[0] in "KPN" and ":" in t]
+        if len(ksteps) != len(im.killlog):
+            continue                      # reported by the monitor
+        for t, (call, h, ret, _, _) in zip(ksteps, im.killlog):
+            sg = int(t.split(":")[1])
+            pid = -(1000 + h) if t[0] == "N" else 1000 + h
+            kcases.append(c + "  #" + t)
+            kin.append("%s %d %d %d" % ("k" if t[0] == "K" else "p", pid, sg, call[2] if call else 0))
+            if call is None:
+                kimpl.append("nocall %d" % ret)
+            else:
+                tgt = call[0]
+                cp = (1000 + int(tgt[1:])) * (1 if tgt[0] == "c" else -1) if tgt[0] in "cg" else tgt
+                kimpl.append("%s %d %d" % (cp, call[1], ret))
+    if kcases:
+        kmodel, _, _ = vf.run_lines([model, "kill"], kin)
+        vf.diff_cases(chk, "process.c uv_kill/uv_process_kill = kill(2) pass-through (Model/Process.v uv_kill)",
+                      kcases, kimpl, kmodel)
+    stats["uv_kill_calls"] = len(kcases)
     stats["disable_stdio_inheritance_calls"] = len(hcases)
     stats["user_sigchld_callbacks"] = sum(im.user_cbs for im in impls if not im.bad)
     for im in impls:
